@@ -175,39 +175,53 @@ def is_rpc_reply(rep, xid, tcp):
     return len(rep) >= 8 and rep[:8] == struct.pack("!II", xid, 1)
 
 
-def mask(rep, tcp):
-    """For C19: blank the endpoint-carrying fields of a portmapper reply.  Because their encoded length
-    depends on the address, everything after accept_stat is replaced by a structural summary."""
+def parse_call(msg, tcp):
+    """(xid, prog, vers, proc) of a call, or None."""
+    if tcp:
+        msg = msg[4:]
+    if len(msg) < 24:
+        return None
+    xid, mtype, rv, prog, vers, proc = struct.unpack("!IIIIII", msg[:24])
+    return {"xid": xid, "prog": prog, "vers": vers, "proc": proc}
+
+
+def canon(rep, tcp, c):
+    """Canonical form of a reply with the endpoint-carrying fields blanked (C19).  c = parse_call(request)."""
+    if rep is None:
+        return None
     body = rep[4:] if tcp else rep
-    if rep is None or len(body) < 24:
-        return rep
-    xid, mtype, rstat, vf, vl, astat = struct.unpack("!IIIIII", body[:24])
-    if mtype != 1 or rstat != 0 or (vf, vl) != (0, 0):
-        return rep
-    rest = body[24:]
-    if astat != 0 or not rest:
-        return b"RPC|" + body[:24] + rest
-    # success with a body: getport (4 bytes), getaddr (string) or dump (list): keep only the shape
-    if len(rest) == 4:
-        return b"RPC|" + body[:24] + b"<port>"
-    x = XDR(rest)
+    if c is None or len(body) < 24:
+        return ("raw", rep)
+    x = XDR(body)
     try:
-        first = x.u32()
-        if first == 1 and len(rest) > 12:
-            n = 0
-            x2 = XDR(rest)
-            while x2.u32() == 1:
-                n += 1
-                x2.u32(); x2.u32()
-                save = x2.i
-                try:
-                    a, b_, c_ = x2.string(), x2.string(), x2.string()
-                    if not (a.rstrip(b"6") in (b"tcp", b"udp")):
-                        raise ValueError
-                except ValueError:
-                    x2.i = save
-                    x2.u32(); x2.u32()
-            return b"RPC|" + body[:24] + b"<dump %d>" % n
-        return b"RPC|" + body[:24] + b"<uaddr>"
+        head = tuple(x.u32() for _ in range(6))
+        if head[1] != 1 or head[2] != 0 or head[5] != 0:
+            return ("rpc", head, body[24:])
+        kind = expected_accept(c)[1]
+        if kind == "getport":
+            x.u32()
+            out = ("getport",)
+        elif kind == "getaddr":
+            x.string()
+            out = ("getaddr",)
+        elif kind == "dump":
+            ents = []
+            while x.u32() == 1:
+                prog, vers = x.u32(), x.u32()
+                if c["vers"] == 2:
+                    ents.append((prog, vers, x.u32()))
+                    x.u32()
+                else:
+                    netid = x.string()
+                    x.string()
+                    ents.append((prog, vers, netid.rstrip(b"6"), x.string()))
+            out = ("dump", tuple(ents))
+        else:
+            out = ("other", body[24:])
+            x.i = len(body)
+        if not x.done():
+            return ("raw", rep)
+        rm = (rep[0] & 0x80,) if tcp else ()
+        return ("rpc", head, out, rm)
     except ValueError:
-        return b"RPC|" + body[:24] + rest
+        return ("raw", rep)
